@@ -591,6 +591,7 @@ class C08Gen(Gen):
     def body_helper_store(self, fn, ind, out, it, rec):
         hs = [h for h in self.helpers if h[4] and h[2] == 'R' and len([p for p in h[1] if p[1] == 'L']) >= 1]
         srcs = [s for s in it['srcs']]
+        srcs += [a for a, r in fn.alias_of.items() if a in fn.env and (r in srcs or any(fn.alias_of.get(s, s) == r for s in srcs))]
         if not hs or not srcs:
             return self.body_acc(fn, ind, out, it)
         h = self.ch.choice(hs)
@@ -685,7 +686,7 @@ class C08Gen(Gen):
         return False
 
     # -- any / all -----------------------------------------------------------------
-    def anyall_text(self, fn, want_var=None, fault_guard=False):
+    def anyall_text(self, fn, want_var=None, fault_guard=False, iter_override=None):
         """`any([...])` / `all([...])` over a one-generator comprehension."""
         ch = self.ch
         ls = self.vars_of(fn, 'L')
@@ -704,7 +705,9 @@ class C08Gen(Gen):
             return n
 
         k = ch.weighted([(8, 'list'), (3, 'zip'), (3, 'enum'), (3, 'range')]) if ls else 'range'
-        if k == 'list':
+        if iter_override is not None:
+            it, target = iter_override, tgt()
+        elif k == 'list':
             l = ch.choice(ls)
             it, target = l, tgt()
         elif k == 'zip':
@@ -736,7 +739,7 @@ class C08Gen(Gen):
         if depth > 0:
             forms.append((6, 'if'))
         if ls:
-            forms += [(6, 'guard'), (2, 'incomp')]
+            forms += [(6, 'guard'), (2, 'incomp'), (5, 'guard-rows')]
         k = ch.weighted(forms)
         if in_loop:
             self.bump('anyall-in-loop')
@@ -765,6 +768,17 @@ class C08Gen(Gen):
             e = ch.choice([f'len({l}) > {c} and {aa}', f'len({l}) <= {c} or {aa}'])
             self.features.add('anyall-under-shortcircuit')
             self.features.add('anyall-guarded-fault')
+        elif k == 'guard-rows':
+            # the iterable is an index into a list of rows; only the guard keeps the index in range
+            rr = fn.fresh('xs')
+            rows = [ch.choice(ls) for _ in range(ch.int(0, 3))]
+            out.append(f'{ind}{rr} = [' + ', '.join(rows) + ']')
+            c = ch.int(0, 4)
+            aa = self.anyall_text(fn, iter_override=f'{rr}[{c}]')
+            e = ch.choice([f'len({rr}) > {c} and {aa}', f'len({rr}) <= {c} or {aa}', f'{c} < len({rr}) and {aa}'])
+            self.features.add('anyall-under-shortcircuit')
+            self.features.add('anyall-guarded-fault')
+            self.features.add('anyall-indexed-iterable')
         elif k == 'ifexp':
             aa = self.anyall_text(fn)
             form = ch.int(0, 2)
@@ -911,6 +925,12 @@ def gen_args(ch, params, length):
     wild = ch.bool(0.2)
     args = []
     for n, t in params:
+        if t == 'LL':       # nested list: `length` rows of 0..3 elements
+            args.append([[ch.choice(TAME) for _ in range(ch.int(0, 3))] for _ in range(length)])
+            continue
+        if t == 'I':        # an index that is out of range about as often as not
+            args.append(ch.int(0, 9))
+            continue
         if t == 'L':
             if wild:
                 args.append([ch.choice(TAME + WILD) for _ in range(length)])
